@@ -275,8 +275,14 @@ sys.exit(0)
                 if m is not None:
                     acc.out.setdefault("witness", []).append((uc, str(m["x"])))
         else:
-            acc.prove(case, p, hgoal, f"{cfg}#p{i}:hash", key, sig,
-                      f"{cfg}: a == b but hash((x,U)) != hash((y,V))", hreplay)
+            # witness at zero only: 0 U == 0 V holds in doubles whatever the ratio, so the replay
+            # with the real hash() does not hinge on a product of doubles coming out exactly;
+            # paths that exclude zero add nothing to this (known) finding
+            rz, _ = acc.P.check(p.cond, z3.Not(hgoal), x == 0, y == 0)
+            if rz == "sat":
+                acc.ob("sat", f"{cfg}#p{i}:hash", key)
+                acc.out["viol"].append((sig, f"{cfg}: a == b but hash((x,U)) != hash((y,V)) at x = y = 0",
+                                        hreplay({"x": Fraction(0), "y": Fraction(0)})))
     acc.sample({"config": cfg, "paths": len(ex.paths),
                 "first_path_pc": [str(c) for c in ex.paths[0].pc][:4]})
     acc.out["selfchecked"] += case.selfchecked
